@@ -14,4 +14,5 @@ CONSTANTS
 INIT TraceInit
 NEXT TraceNext
 INVARIANT Report
+VIEW TraceView
 CHECK_DEADLOCK FALSE
